@@ -146,4 +146,34 @@ def runNorm (paths : List String) : String :=
         encStr r.2.1 :: go r.1 ps
   " ".intercalate (go [] paths)
 
+/-- the command-line front end (`_handle_commands` of async_.py / sync.py): per argument one request —
+`PATH?` list, `PATH!` dump, `PATH=` clear, `PATH=VALUE` set (split at the FIRST `=`; only `PATH` is normalised), `PATH` get —
+with `PATH` resolved by `_Path.normalize` against the directory of the last absolute path -/
+def runCli (args : List String) : String :=
+  let rec go (cur : Str) : List String → List String
+    | [] => []
+    | a :: rest =>
+      match decStr a with
+      | none => ["bad"]
+      | some arg =>
+        let last := arg.getLast?
+        if last = some '?' then
+          let r := Gen.Py.normalize cur arg.dropLast
+          ("L" ++ encStr r.2.1) :: go r.1 rest
+        else if last = some '!' then
+          let r := Gen.Py.normalize cur arg.dropLast
+          ("D" ++ encStr r.2.1) :: go r.1 rest
+        else if arg.contains '=' then
+          let path := arg.takeWhile (· ≠ '=')
+          let value := (arg.dropWhile (· ≠ '=')).drop 1
+          let r := Gen.Py.normalize cur path
+          if value.isEmpty then ("C" ++ encStr r.2.1) :: go r.1 rest
+          else ("S" ++ encStr r.2.1 ++ "=" ++ encStr value) :: go r.1 rest
+        else
+          let r := Gen.Py.normalize cur arg
+          ("G" ++ encStr r.2.1) :: go r.1 rest
+  match go [] args with
+  | [] => "-"
+  | l => " ".intercalate l
+
 end MiniconfVerif.PyDriver
